@@ -79,6 +79,8 @@ def compare(op, a, b):
     elif b is None:
         b = neutral(a)
     ka, kb = order_key(a), order_key(b)
+    if ka[0] == kb[0] == 0 and a != b and '%.15g' % a == '%.15g' % b:
+        return UNPINNED          # distinct doubles that agree to 15 significant digits: only the order axioms are judged
     return {'=': ka == kb, '<>': ka != kb, '<': ka < kb, '<=': ka <= kb, '>': ka > kb, '>=': ka >= kb}[op]
 
 
